@@ -66,7 +66,7 @@ impl Dec {
 				}
 				(i, String::new(), 0)
 			}
-			3 if -self.exp10 < n + 30 && self.exp10 < 0 => {
+			3 if -self.exp10 < n + 350 && self.exp10 < 0 => {
 				// plain fraction
 				let shift = (-self.exp10) as usize;
 				if shift < d.len() {
@@ -155,7 +155,7 @@ pub fn gen_dec(rng: &mut Rng) -> Dec {
 	loop {
 		// under the interpreter only the short classes: parsing and rendering numbers of hundreds of digits
 		// (in the library, in std and in the reference) costs minutes there
-		let class = if cfg!(miri) { [0, 1, 2, 3, 4, 5, 11, 15][rng.below(8)] } else { rng.below(16) };
+		let class = if cfg!(miri) { [0, 1, 2, 3, 4, 5, 11, 15, 16, 17][rng.below(10)] } else { rng.below(18) };
 		let d = match class {
 			0..=3 => {
 				// few digits, small exponent
@@ -177,6 +177,21 @@ pub fn gen_dec(rng: &mut Rng) -> Dec {
 				let n = rng.range(20, 40);
 				digits(rng, n, &mut s);
 				Dec { neg: rng.chance(1, 3), digits: s, exp10: rng.range(0, 640) as i32 - 340 }
+			}
+			16 => {
+				// a few digits at the bottom of the range: subnormals (where a short spelling is usually not
+				// the shortest one of the nearest double) and values that underflow to zero
+				let mut s = String::new();
+				let n = rng.range(1, 6);
+				digits(rng, n, &mut s);
+				Dec { neg: rng.chance(1, 4), digits: s, exp10: -(rng.range(300, 345) as i32) }
+			}
+			17 => {
+				// a few digits, tiny magnitude: often spelled without exponent, with dozens of leading zeros
+				let mut s = String::new();
+				let n = rng.range(1, 8);
+				digits(rng, n, &mut s);
+				Dec { neg: rng.chance(1, 4), digits: s, exp10: -(rng.range(18, 60) as i32) }
 			}
 			9 => {
 				// hundreds of digits
